@@ -178,7 +178,7 @@ def rule_block_number(report, prog):
     report.floor('C12-R2 response data', len(takes), 2)
     # response reassembly: first INF sets, chained blocks append in order
     okk = bool(find(f.node, 'response = data[1:]')) and bool(find(f.node, 'response += data[1:]')) and \
-        any(isinstance(l, ast.While) and norm(l.test) == 'bool(data[0] & 16)' for l in walk_no_nested(f.node))
+        any(isinstance(l, ast.While) and norm(l.test) == 'data[0] & 16' for l in walk_no_nested(f.node))
     report.check(okk, 'C12-R2', key(f.qname, 'chained response blocks appended in order while the chaining bit is set'), f.loc(),
                  'response reassembly changed')
 
@@ -411,7 +411,7 @@ ISODEP_EMPTY_REASON = ('the read follows the block loop `for offset in range(0, 
 ISODEP_EMPTY_ANCHORS = [('nfc.tag.tt4.IsoDepInitiator.exchange', _isodep_loop_runs), ('nfc.tag.tt4.Type4Tag.send_apdu', _apdu_has_header)]
 
 
-triage.add('C12', 'C12-R5', key(ISO + '.exchange', 'data is long enough for', 'data[0] in `while bool(data[0] & 16)`'), ISODEP_EMPTY_REASON, ISODEP_EMPTY_ANCHORS)
+triage.add('C12', 'C12-R5', key(ISO + '.exchange', 'data is long enough for', 'data[0] in `while data[0] & 16`'), ISODEP_EMPTY_REASON, ISODEP_EMPTY_ANCHORS)
 
 
 T4 = 'nfc.tag.tt4'
